@@ -392,6 +392,7 @@ def h_outcome_lists(renderer, max_len):
 
     def drive(ctx, args):
         """render(&[&outcome…]) for passed / malformed-output / wrong-exit-code / timed-out / skipped outcomes with distinct texts"""
+        from mir_exec import STRUCTS as STRUCTS_
         prog = ctx.program
         parse = find_method(prog, "src/expectation.rs", "parse")
         maker = get_maker(ctx)
@@ -405,7 +406,10 @@ def h_outcome_lists(renderer, max_len):
             same = ctx.notes["located"] == "same"
             tc = mk_struct("TestCase", title=StringBuf(text("title%dt" % i)), shell_expression=StringBuf(text("cmd%dc" % i)), expectations=VecBuf([exp]),
                            exit_code=none(), line_number=mk_int(3 if same else 3 + 10 * i, "usize"), config=Opaque("config"))
-            status = Agg("ExitStatus", "Code", [mk_int(4 if k == "C" else 0, "i32")])
+            status = Agg("ExitStatus", "Code", [mk_int(4 if k in "CZ" else 0, "i32")])
+            if k == "Z":
+                # wrong exit code of a test case that spells out `[0]`
+                tc.fields[STRUCTS_["TestCase"].index("exit_code")] = some(mk_int(0, "i32"))
             if k == "P":
                 res = Agg("Result", "Ok", [UNIT])
                 must_not += ["title%dt" % i, "cmd%dc" % i, "want%dq" % i]
@@ -415,15 +419,15 @@ def h_outcome_lists(renderer, max_len):
                                  count_matched=mk_int(0, "usize"), count_unmatched=mk_int(1, "usize"), count_output_lines=mk_int(1, "usize"))
                 res = Agg("Result", "Err", [Agg("TestCaseError", "MalformedOutput", [diff])])
                 must += ["want%dq" % i, "got%dz" % i]
-            elif k == "C":
+            elif k in "CZ":
                 res = Agg("Result", "Err", [Agg("TestCaseError", "InvalidExitCode", [mk_int(4, "i32"), mk_int(0, "i32")])])
-                must += ["4"]
+                must += ["4"] + (["-[0]", "+[4]"] if k == "Z" and renderer == "diff" else [])
             elif k == "T":
                 res = Agg("Result", "Err", [Agg("TestCaseError", "Timeout", [])])
             else:
                 res = Agg("Result", "Err", [Agg("TestCaseError", "Skipped", [])])
             out = mk_struct("Output", stderr=Agg("OutputStream", None, [VecBuf([], "u8")]),
-                            stdout=Agg("OutputStream", None, [VecBuf(list(line.items) if k in "FC" else [], "u8")]), exit_code=status)
+                            stdout=Agg("OutputStream", None, [VecBuf(list(line.items) if k in "FCZ" else [], "u8")]), exit_code=status)
             loc = some(StringBuf(text("doc%d.md" % (0 if same else i % 2)))) if ctx.notes["located"] else none()
             outcomes.append(new_ref(mk_struct("Outcome", location=loc, output=out, testcase=tc, format=Agg("ParserType", "Markdown", []),
                                               escaping=Agg("Escaper", "Unicode", []), result=res)))
@@ -438,12 +442,12 @@ def h_outcome_lists(renderer, max_len):
             return False
         text = "".join(chr(c.v) if c.concrete else "?" for c in as_str(value.fields[0]).chars)
         return all(t in text for t in ctx.notes["must"]) and not any(t in text for t in ctx.notes["must_not"])
-    inputs = [("outcomes=%s located=%s" % ("".join(k), loc), mk("".join(k), loc)) for n in range(0, max_len + 1) for k in itertools.product("PFCTS", repeat=n) for loc in (False, True, "same") if not (loc == "same" and n < 2)]
+    inputs = [("outcomes=%s located=%s" % ("".join(k), loc), mk("".join(k), loc)) for n in range(0, max_len + 1) for k in itertools.product("PFCZTS" if n < 3 else "PFCTS", repeat=n) for loc in (False, True, "same") if not (loc == "same" and n < 2)]
     h = e2.Harness("%s_renderer_outcome_lists" % renderer, drive, inputs, post, native=None, judge=None,
                    describe="the %s renderer returns a rendering for every list of outcomes; it contains the unmatched expectation and the unexpected line of every "
                             "test case that failed on its output and the actual exit code of one that failed on its exit code, and nothing (title, command, "
                             "expectation) of a test case that passed" % renderer,
-                   bound="every list of 0..%d outcomes over passed / malformed output / wrong exit code / timed out / skipped; with and without locations "
+                   bound="every list of 0..%d outcomes over passed / malformed output / wrong exit code (also of a test that writes `[0]`) / timed out / skipped; with and without locations "
                          "(two documents alternating; or one location and one line number for all, as test cases of prepend / append documents have)" % max_len)
     h.models_cls = TextModels
     return h
